@@ -4,7 +4,7 @@ import json, os, subprocess, sys
 ROOT = os.path.dirname(os.path.dirname(os.path.abspath(__file__)))
 sys.path.insert(0, os.path.join(ROOT, "tools"))
 from props import PROPS
-from claims import CLAIMS, NOT_APPLICABLE
+from props import CLAIMS, NOT_APPLICABLE
 
 man = json.load(open(os.path.join(ROOT, "MANIFEST.json")))
 ids = [json.loads(l)["id"] for l in open(os.path.join(ROOT, "properties.jsonl"))]
